@@ -442,9 +442,26 @@ def skeleton(ctx):
         m = c.find_method("processCharacters")
         rs = reach([(m.fq, NONAME)])
         hits = sorted(k[0] for k in rs if k[0] in tb_insert or k[0] in node_insert)
-        r.check("C03.4", not hits, "no-text:%s" % key, m.where,
-                "processCharacters of phase %s can insert text directly (%s): non-white-space text may end up under "
-                "html/head" % (key, hits[:2]), {"reaches": hits}, detail={"phase": key, "handler": m.qual})
+        ws_only = None
+        if hits:
+            # the handler may pass the white space of the run on: decided by running it on a mixed run with a recording tree
+            from ..classeval import ClassEval, Record
+            inserted = []
+            tree = Record(insertText=lambda data, parent=None: inserted.append(data), openElements=[Record(name="html")],
+                          reconstructActiveFormattingElements=lambda: None)
+            body_model = Record(processSpaceCharacters=lambda tok: inserted.append(tok["data"]),
+                                processCharacters=lambda tok: inserted.append(tok["data"]))
+            try:
+                ClassEval(ctx.ce, ctx.repo.module(PARSER_REL), c, {"tree": tree, "parser": Record(parseError=lambda *a: None, phases={"inBody": body_model})},
+                          repo=ctx.repo).call("processCharacters", [{"type": 1, "data": "a \tb\nc"}])
+                ws_only = all(ch in "\t\n\x0c\r " for piece in inserted for ch in piece)
+            except AnalysisError:
+                ws_only = None
+        r.idiom("C03.4", not hits or ws_only is True, "no-text:%s" % key, m.where,
+                "processCharacters of phase %s can insert text (%s) and could not be run to see what it inserts" % (key, hits[:2]),
+                wrong=[(ws_only is False or (ws_only is None and m.cls is c and len(m.node.body) <= 2),
+                        "processCharacters of phase %s can insert text directly (%s): non-white-space text may end up under html/head" % (key, hits[:2]))],
+                data={"reaches": hits}, detail={"phase": key, "handler": m.qual, "white_space_only": ws_only})
 
 
 # ---------------------------------------------------------------------------- C03.5
@@ -1639,6 +1656,8 @@ def mutants():
           "            self.stream.unget(data)\n            self.state = self.afterAttributeValueState\n        return True\n\n    def selfClosingStartTagState", "C03.3"),
         T("tok-eof-loop", "_tokenizer.py", "        elif data is EOF:\n            self.tokenQueue.append({\"type\": tokenTypes[\"ParseError\"], \"data\":\n                                    \"eof-in-tag-name\"})\n            self.state = self.dataState",
           "        elif data is EOF:\n            self.tokenQueue.append({\"type\": tokenTypes[\"ParseError\"], \"data\":\n                                    \"eof-in-tag-name\"})", "C03.3"),
+        T("frameset-inserts-whole-run", "html5parser.py", "        self.parser.parseError(\"unexpected-char-in-frameset\")\n        # the white space inside a run of characters is not ignored\n        data = \"\".join([c for c in token[\"data\"] if c in spaceCharacters])\n",
+          "        self.parser.parseError(\"unexpected-char-in-frameset\")\n        data = token[\"data\"]\n", "C03.4"),
         T("frameset-keeps-body-on-stack", "html5parser.py", "            while (self.tree.openElements[-1].namespace != self.tree.defaultNamespace or\n                   self.tree.openElements[-1].name != \"html\"):\n                self.tree.openElements.pop()\n            self.tree.insertElement(token)\n            self.parser.phase = self.parser.phases[\"inFrameset\"]",
           "            del self.tree.openElements[2:]\n            self.tree.insertElement(token)\n            self.parser.phase = self.parser.phases[\"inFrameset\"]", "C03.7"),
         T("none-deref", "treebuilders/base.py", "            if lastTable.parent:\n                fosterParent = lastTable.parent", "            if lastTable.parent or fosterParent.parent:\n                fosterParent = lastTable.parent", "C03.8"),
